@@ -251,7 +251,24 @@ func pinnedC01() []*pgen.Case {
 		pinnedVarsElsewhere("pin_vars_elsewhere_named", "./sub/out.go", "vcase/pin_vars_elsewhere_named/p/sub:other"),
 		pinnedHelperNameClash("pin_helper_clash_func", "// goverter:output:format function\n// goverter:output:file ./p.gen.go\n", false),
 		pinnedHelperNameClash("pin_helper_clash_struct", "// goverter:output:file ./p.gen.go\n", false),
-		pinnedHelperNameClash("pin_helper_clash_vars", "", true)}
+		pinnedHelperNameClash("pin_helper_clash_vars", "", true),
+		pinnedSameName("pin_same_impl_name", false), pinnedSameName("pin_same_func_name", true)}
+}
+
+// pinnedSameName: converters that land in one output package and would declare the same identifier (two
+// ConverterImpl structs from two packages / two functions Convert): a diagnostic or output that compiles.
+func pinnedSameName(name string, fn bool) *pgen.Case {
+	files := map[string]string{}
+	for _, pk := range []string{"alpha", "beta"} {
+		files[pk+"/input.go"] = "package " + pk + "\n\ntype In struct{ V int }\ntype Out struct{ V int }\n\n// goverter:converter\ntype Converter interface {\n\tConvert(source In) Out\n}\n"
+	}
+	args := []string{"-g", "output:file @cwd/out/gen.go", "-g", "output:package vcase/" + name + "/out"}
+	if fn {
+		args = append(args, "-g", "output:format function")
+	}
+	c := pgen.RawCase(name, files, args, []string{"./alpha", "./beta"})
+	c.Feature("tag", "same-name")
+	return c
 }
 
 // pinnedHelperNameClash: a declared method / variable has the very name goverter would give to a generated helper.
